@@ -18,11 +18,17 @@ def run(ctx):
         'are identical or cyclic rotations, and index steps map linearly onto '
         'their coordinate steps',
         'R2 the swirl donor column selected for each wire direction is the '
-        'column the exterior ring connection writes for that direction']
+        'column the exterior ring connection writes for that direction',
+        'R3 gap conduction distances are a function of the link, not of the '
+        'numbering: both directions of an edge-corner link take the side '
+        'parameters of the edge cell of that link (rule shared with C02.R6)']
     ctx.not_decided += ['equivariance of the computed fields (a relation '
                         'between runs)', 'correctness of the run-time maps']
     r1(ctx)
     r2(ctx)
+    from . import _gapdist
+    _gapdist.check(ctx, 'C07.R3')
+    ctx.min_instances('C07.R3', 4)
     ctx.min_instances('C07.R1', 14)
     ctx.min_instances('C07.R2', 3)
 
